@@ -2,6 +2,7 @@
 package props
 
 import (
+	_ "verif/props/c01"
 	_ "verif/props/c02"
 	_ "verif/props/c03"
 	_ "verif/props/c04"
@@ -17,5 +18,6 @@ import (
 	_ "verif/props/c14"
 	_ "verif/props/c15"
 	_ "verif/props/c16"
+	_ "verif/props/c17"
 	_ "verif/props/c18"
 )
